@@ -116,6 +116,10 @@ def gen_select(rng, features):
     if 'subquery' in features and rng.random() < 0.4:
         name, t = tref(rng)
         ws.append(f'{aliases[0]}.a in (select a from {name} where b = {rng.randint(0, 2)})')
+        if rng.random() < 0.35:
+            # a second sub-select beside the first (on the same or on another integration)
+            name2, _ = tref(rng)
+            ws.append(f'{aliases[0]}.b {rng.choice(["in", "not in"])} (select b from {name2})')
     if ws:
         sql += ' where ' + ' and '.join(ws)
     if 'group' in features and rng.random() < 0.25 and targets != '*':
@@ -217,6 +221,12 @@ EDGE_STATEMENTS = [
     "delete from int1.t1 where int1.t1.a = 1", "delete from int1.t1 where t1.a = 1 and int1.t1.b in (select b from int2.t2)",
     "create table int2.copy1 as select * from int1.t1 join int3.t3 on t1.a = t3.a",
     # an outer select that runs over a fetched frame and has sub-selects of its own
+    # several sub-selects side by side, on the outer integration and on others, in WHERE and in the select list
+    "select * from int1.t1 where a in (select a from int2.t2) and b in (select b from int2.u2)",
+    "select a, (select max(b) from int2.t2) as m from int1.t1 where c in (select c from int2.u2)",
+    "delete from int1.t1 where a in (select a from int2.t2) and b in (select b from int2.u2)",
+    "select * from int1.t1 where a in (select a from int2.t2) and b in (select b from int1.u1) and c in (select c from int2.u2)",
+    "select * from int1.t1 where a in (select a from int3.t3) and b in (select b from int2.t2) and c > (select min(c) from int3.t3)",
     "select * from int1.t1 as a left join int2.t2 as b on a.a = b.a order by lower(a.b) limit 5", "select * from int1.t1 as a join int2.t2 as b on a.a = b.a order by a.a + 1",
     "select * from int1.t1 as a join int2.t2 as b on a.a = b.a order by 1", "select * from int1.t1 as a join proj.pred as m order by abs(a.a) desc limit 2",
     "select * from (select * from int1.t1) as x where x.a in (select b from int2.t2)",
